@@ -2034,6 +2034,15 @@ impl<'a> Run<'a> {
         // authors' own ASTs: every symbol and key reference must have resolved to the same thing)
         if self.mon.c12 {
             self.check_meaning("C12", "meaning-differs-from-written", &biscuit, token, verifier, &spec);
+            // ... and so does the object the holder has in memory, which never went through bytes
+            let in_memory: Option<Biscuit> = match &self.slots[token].obj {
+                Obj::V(b) => Some(b.clone()),
+                Obj::U(u) => u.clone().verify(root).ok(),
+            };
+            if let Some(m) = in_memory {
+                self.stats.bump("c12.in_memory_twin_authorized");
+                self.check_meaning("C12", "in-memory-meaning-differs-from-written", &m, token, verifier, &spec);
+            }
         }
         // C07: a third-party block's facts are seen by exactly the scopes that name its key, on
         // every route to an evaluated authorizer; probe queries name every key of the scenario
